@@ -1,6 +1,7 @@
 package isaacdatabase
 
 import (
+	"bytes"
 	"context"
 	"math"
 
@@ -364,7 +365,20 @@ func (db *LeveldbPermanent) mergeTempDatabaseFromLeveldb(ctx context.Context, te
 	batch := pst.NewBatch()
 	defer batch.Reset()
 
+	// NOTE the block is visible in the permanent database after restart by
+	// its blockmap (and suffrage proof); they are written after all the
+	// others are written. If merging is stopped before, the temp database
+	// will be merged again.
+	lastbatch := pst.NewBatch()
+	defer lastbatch.Reset()
+
 	if err := tpst.Iter(nil, func(k, v []byte) (bool, error) {
+		if isLastKeyOfMergeTempDatabase(k) {
+			lastbatch.Put(k, v)
+
+			return true, nil
+		}
+
 		if batch.Len() == db.batchlimit {
 			b := batch
 
@@ -398,6 +412,12 @@ func (db *LeveldbPermanent) mergeTempDatabaseFromLeveldb(ctx context.Context, te
 		return e.Wrap(err)
 	}
 
+	if lastbatch.Len() > 0 {
+		if err := pst.Batch(lastbatch, nil); err != nil {
+			return e.Wrap(err)
+		}
+	}
+
 	_ = db.updateLast(
 		temp.enc.Hint().String(),
 		temp.mp, temp.mpmeta, temp.mpbody,
@@ -419,6 +439,12 @@ func (db *LeveldbPermanent) mergeTempDatabaseFromLeveldb(ctx context.Context, te
 	db.Log().Info().Interface("blockmap", temp.mp).Msg("new block merged")
 
 	return nil
+}
+
+func isLastKeyOfMergeTempDatabase(k []byte) bool {
+	return bytes.HasPrefix(k, leveldbKeyPrefixBlockMap[:]) ||
+		bytes.HasPrefix(k, leveldbKeySuffrageProof[:]) ||
+		bytes.HasPrefix(k, leveldbKeySuffrageProofByBlockHeight[:])
 }
 
 func (db *LeveldbPermanent) loadLastBlockMap() error {
